@@ -53,6 +53,50 @@ func (s *Session[K]) samePairs(a, b []pair[K]) bool {
 	return true
 }
 
+// noise runs read-only calls between two passes over one sequence value: the
+// tree is unchanged by them, so the sequence must still deliver the same.
+func (s *Session[K]) noise(r *rng.R) {
+	if s.Dead || !r.Chance(1, 2) {
+		return
+	}
+	s.guard("read-only calls between passes", func() {
+		for i := 0; i < 3; i++ {
+			k := s.K.Pool(r, 1)[0]
+			if st, ok := s.pickStored(r); ok && r.Chance(1, 2) {
+				k = s.K.Near(r, st)
+			}
+			s.T.Search(s.fresh(k))
+			if d := s.K.Near(r, k); !s.M.Has(d) {
+				s.T.Delete(s.fresh(d)) // a no-op: the key is absent
+			}
+		}
+		s.T.Minimum()
+		s.T.Maximum()
+		if st, ok := s.pickStored(r); ok {
+			if s.K.HasPrefix && s.K.PrefixArgOK(st) {
+				for range s.T.Prefix(s.fresh(st)) {
+					break
+				}
+			}
+			if s.K.HasRange || s.K.Family == "collation" {
+				if ok2, _ := s.rangeArgsOK(st, st); ok2 {
+					for range s.T.Range(s.fresh(st), s.fresh(st)) {
+						break
+					}
+				}
+			}
+		}
+	})
+	s.Res.Inc("seq_noise_rounds")
+}
+
+func (s *Session[K]) rangeArgsOK(a, b K) (bool, string) {
+	if s.K.RangeOK == nil {
+		return true, ""
+	}
+	return s.K.RangeOK(a, b)
+}
+
 func (s *Session[K]) seqProtocol(name string, mk func() iter.Seq2[K, uint64], r *rng.R) {
 	if s.Dead {
 		return
@@ -98,6 +142,7 @@ func (s *Session[K]) seqProtocol(name string, mk func() iter.Seq2[K, uint64], r 
 		}
 		// after an abandoned pass the same value must deliver everything again
 		if st%7 == 0 || len(stops) < 12 {
+			s.noise(r)
 			var again seqRun[K]
 			if s.guard(name+" re-iteration after early stop", func() { again = runSeq(seq, -1, -1, nil) }) {
 				return
@@ -111,6 +156,7 @@ func (s *Session[K]) seqProtocol(name string, mk func() iter.Seq2[K, uint64], r 
 	}
 	// plain re-iterations
 	for i := 0; i < 1+r.Intn(3); i++ {
+		s.noise(r)
 		var again seqRun[K]
 		if s.guard(name+" re-iteration", func() { again = runSeq(seq, -1, -1, nil) }) {
 			return
@@ -149,14 +195,14 @@ func (s *Session[K]) CheckSeqProtocol(r *rng.R) {
 		s.seqProtocol(fmt.Sprintf("TopK(%d)", kk), func() iter.Seq2[K, uint64] { return s.T.TopK(kk) }, r)
 		s.seqProtocol(fmt.Sprintf("BottomK(%d)", kk), func() iter.Seq2[K, uint64] { return s.T.BottomK(kk) }, r)
 	}
-	if s.K.HasRange && n > 0 {
+	if (s.K.HasRange || s.K.Family == "collation") && n > 0 {
 		for i := 0; i < 3 && !s.Dead; i++ {
 			a, _ := s.pickStored(r)
 			b, _ := s.pickStored(r)
 			if i == 2 {
 				b = s.K.Near(r, b)
 			}
-			if ok, _ := s.K.RangeOK(a, b); !ok {
+			if ok, _ := s.rangeArgsOK(a, b); !ok {
 				continue
 			}
 			s.seqProtocol(fmt.Sprintf("Range(%s,%s)", s.K.Show(a), s.K.Show(b)), func() iter.Seq2[K, uint64] { return s.T.Range(s.fresh(a), s.fresh(b)) }, r)
